@@ -7,6 +7,11 @@
     [verif_hooks]); the harness (harness/src/bin/c12.rs) releases one thread from one point to
     the next per schedule entry, so a schedule entry of the harness is a [step] of this model.
 
+    Every [UnixFd] value is a handle on an *object* ([Arc<UnixFdInner>]: an atomic cell and a
+    strong count). Object 0 is the one created by [UnixFd::new(fd0)] and shared by all threads;
+    every successful [dup] creates a new object over the new descriptor and hands the caller a
+    handle on it, on which the same operations are possible (it is "just another UnixFd").
+
     What is modelled, not verified (DESIGN.md section 4): [std::sync::Arc] (clone = atomic
     increment, drop = atomic decrement, the destructor of the shared value runs exactly once, in
     the thread whose decrement brought the count to 0) and SeqCst atomics as interleaving
@@ -21,13 +26,15 @@ Definition FD_INVALID : Z := (-1)%Z.
 
 (** ** Programs *)
 
-(** One call of the public API on a handle (a [UnixFd] value, i.e. one clone of the [Arc]).
-    Handles are named by thread-local numbers: every thread starts owning handle 0; [Clone h]
-    creates the next unused number. *)
+(** One call of the public API on a handle (a [UnixFd] value, i.e. one clone of an [Arc]).
+    Handles are named by thread-local numbers: every thread starts owning handle 0 (a clone of
+    the shared object); every [Clone] and every [Dup] in the program is given the next unused
+    number for the handle it creates, whether or not it succeeds at run time. *)
 Inductive op :=
 | Take (h : nat)     (* h.take_raw_fd()   — consumes h *)
 | Get (h : nat)      (* h.get_raw_fd() *)
-| Dup (h : nat)      (* h.dup() *)
+| Dup (h : nat)      (* let h' = h.dup()  — the dup(2) call succeeds *)
+| DupFail (h : nat)  (* h.dup()           — the dup(2) call, if reached, fails (EMFILE, ...) *)
 | Clone (h : nat)    (* let h' = h.clone() *)
 | Drop (h : nat).    (* drop(h) *)
 
@@ -36,46 +43,58 @@ Inductive res :=
 | RTake (r : option Z)     (* take_raw_fd: Some fd / None *)
 | RGet (r : option Z)      (* get_raw_fd: Some fd / None *)
 | RDup (r : option Z)      (* dup: Ok(handle over the new descriptor) / Err(AlreadyTaken) *)
+| RDupErr                  (* dup: Err(DupError::Io(_)) *)
 | RClone
 | RDrop
-| RInvalid.                (* the operation named a handle the thread does not own (excluded by
+| RSkipped                 (* the operation names a handle that was never created because the dup (or
+                              the clone of such a handle) that would have created it did not
+                              succeed: `if let Ok(d) = h.dup() { ... d ... }`; it is skipped *)
+| RInvalid.                (* the operation names a handle the thread does not own (excluded by
                               [ownership_respected]; Rust's borrow checker rejects such programs);
                               it is skipped *)
 
-(** Where a thread stands inside a call: the atomic action it performs when scheduled next. *)
+(** Where a thread stands inside a call: the atomic action it performs when scheduled next.
+    [o] is the object the call works on. *)
 Inductive pcs :=
-| Idle                            (* at the first action of the next operation of its program *)
-| TakeCas (h : nat) (v : Z)       (* UnixFdInner::take: loaded v <> -1, next: compare_exchange(v, -1) *)
-| TakeDec (h : nat) (r : option Z)(* take_raw_fd: result r computed, next: `self` goes out of scope = Arc decrement *)
-| DupSys (v : Z)                  (* UnixFdInner::dup: get() returned Some v, next: nix::unistd::dup(v) *)
-| DtorLoad (k : res)              (* Drop for UnixFdInner -> self.take(): next: load; k = what the interrupted call returns *)
-| DtorCas (v : Z) (k : res)       (* Drop for UnixFdInner -> self.take(): next: compare_exchange(v, -1) *)
-| DtorClose (v : Z) (k : res).    (* Drop for UnixFdInner: take() returned Some v, next: nix::unistd::close(v) *)
+| Idle                                     (* at the first action of the next operation of its program *)
+| TakeCas (h o : nat) (v : Z)              (* UnixFdInner::take: loaded v <> -1, next: compare_exchange(v, -1) *)
+| TakeDec (h o : nat) (r : option Z)       (* take_raw_fd: result r computed, next: `self` goes out of scope = Arc decrement *)
+| DupSys (o : nat) (v : Z) (fails : bool)  (* UnixFdInner::dup: get() returned Some v, next: nix::unistd::dup(v) *)
+| DtorLoad (o : nat) (k : res)             (* Drop for UnixFdInner -> self.take(): next: load; k = what the interrupted call returns *)
+| DtorCas (o : nat) (v : Z) (k : res)      (* Drop for UnixFdInner -> self.take(): next: compare_exchange(v, -1) *)
+| DtorClose (o : nat) (v : Z) (k : res).   (* Drop for UnixFdInner: take() returned Some v, next: nix::unistd::close(v) *)
 
-(** Ghost trace (newest event first in [log]). [EvDupSys] and [EvClose] are the system calls the
-    harness observes; [EvRet] are the return values it observes; the others mark atomic steps
-    the theorems talk about. *)
+(** Ghost trace (newest event first in [log]). [EvDupSys], [EvDupFail] and [EvClose] are the
+    system calls the harness observes; [EvRet] are the return values it observes; the others
+    mark atomic steps the theorems talk about. [o] = the object concerned. *)
 Inductive event :=
-| EvStart (t i : nat)              (* thread t performed the first atomic action of its i-th operation *)
-| EvTakeCas (t : nat) (v : Z)      (* successful compare_exchange inside take_raw_fd: THE take *)
-| EvDtorCas (t : nat) (v : Z)      (* successful compare_exchange inside Drop for UnixFdInner *)
-| EvDecZero (t : nat)              (* an Arc decrement that brought the strong count to 0 *)
-| EvDupSys (t : nat) (src new : Z) (* dup(src) = new *)
-| EvClose (t : nat) (fd : Z)       (* close(fd) *)
-| EvRet (t i : nat) (r : res).     (* the i-th operation of thread t returned r *)
+| EvStart (t i o : nat)              (* thread t performed the first atomic action of its i-th operation (on object o) *)
+| EvTakeCas (t o : nat) (v : Z)      (* successful compare_exchange inside take_raw_fd: THE take of object o *)
+| EvDtorCas (t o : nat) (v : Z)      (* successful compare_exchange inside Drop for UnixFdInner *)
+| EvDecZero (t o : nat)              (* an Arc decrement that brought the strong count of o to 0 *)
+| EvDupSys (t o : nat) (src new : Z) (* dup(src) = new, src read from object o *)
+| EvDupFail (t o : nat) (src : Z)    (* dup(src) failed *)
+| EvClose (t o : nat) (fd : Z)       (* close(fd), from the destructor of object o *)
+| EvRet (t i o : nat) (r : res).     (* the i-th operation of thread t (on object o) returned r *)
 
 Record thread := mkThread {
-  prog : list op;        (* operations not yet finished; the head is the one in progress when pc <> Idle *)
-  done : nat;            (* number of finished operations = index of the current one *)
+  prog : list op;            (* operations not yet finished; the head is the one in progress when pc <> Idle *)
+  done : nat;                (* number of finished operations = index of the current one *)
   pc : pcs;
-  live : list nat;       (* handles this thread owns *)
-  nexth : nat            (* next unused handle number *)
+  live : list (nat * nat);   (* handles this thread owns: (handle number, object) *)
+  dead : list nat;           (* handle numbers that were never created (unsuccessful dup, skipped clone/dup) *)
+  nexth : nat                (* next unused handle number *)
+}.
+
+(** [Arc<UnixFdInner>] *)
+Record obj := mkObj {
+  cell : Z;              (* UnixFdInner.inner : AtomicI32 — the descriptor or -1 *)
+  strong : nat           (* the Arc's strong count *)
 }.
 
 Record shared := mkShared {
-  cell : Z;              (* UnixFdInner.inner : AtomicI32 — the descriptor or -1 *)
-  strong : nat;          (* the Arc's strong count *)
-  next_fd : Z;           (* simulated descriptor table: the number the next dup returns *)
+  objs : list obj;
+  next_fd : Z;           (* simulated descriptor table: the number the next successful dup returns *)
   log : list event       (* ghost trace, newest first *)
 }.
 
@@ -85,10 +104,16 @@ Record cfg := mkCfg { sh : shared; threads : list thread }.
 
 Definition has (h : nat) (l : list nat) : bool := existsb (Nat.eqb h) l.
 
-Fixpoint rm1 (h : nat) (l : list nat) : list nat :=
+Fixpoint lookup (h : nat) (l : list (nat * nat)) : option nat :=
+  match l with
+  | [] => None
+  | (h', o) :: r => if Nat.eqb h h' then Some o else lookup h r
+  end.
+
+Fixpoint rm1 (h : nat) (l : list (nat * nat)) : list (nat * nat) :=
   match l with
   | [] => []
-  | x :: r => if Nat.eqb h x then r else x :: rm1 h r
+  | (h', o) :: r => if Nat.eqb h h' then r else (h', o) :: rm1 h r
   end.
 
 Fixpoint upd {A} (n : nat) (x : A) (l : list A) : list A :=
@@ -98,38 +123,55 @@ Fixpoint upd {A} (n : nat) (x : A) (l : list A) : list A :=
   | y :: r, S n' => y :: upd n' x r
   end.
 
+Definition dflt_obj : obj := mkObj FD_INVALID 0.
+Definition get_obj (s : shared) (o : nat) : obj := nth o (objs s) dflt_obj.
+Definition set_obj (s : shared) (o : nat) (ob : obj) : shared :=
+  mkShared (upd o ob (objs s)) (next_fd s) (log s).
+
 Definition set_pc (th : thread) (p : pcs) : thread :=
-  mkThread (prog th) (done th) p (live th) (nexth th).
-Definition set_live (th : thread) (l : list nat) : thread :=
-  mkThread (prog th) (done th) (pc th) l (nexth th).
+  mkThread (prog th) (done th) p (live th) (dead th) (nexth th).
+Definition set_live (th : thread) (l : list (nat * nat)) : thread :=
+  mkThread (prog th) (done th) (pc th) l (dead th) (nexth th).
+(** the handle number of a clone/dup that does not create a handle is used up *)
+Definition alloc_dead (th : thread) : thread :=
+  mkThread (prog th) (done th) (pc th) (live th) (nexth th :: dead th) (S (nexth th)).
+(** a clone/dup created a handle on object o *)
+Definition alloc_live (th : thread) (o : nat) : thread :=
+  mkThread (prog th) (done th) (pc th) ((nexth th, o) :: live th) (dead th) (S (nexth th)).
 Definition emit (e : event) (s : shared) : shared :=
-  mkShared (cell s) (strong s) (next_fd s) (e :: log s).
-Definition set_cell (s : shared) (v : Z) : shared :=
-  mkShared v (strong s) (next_fd s) (log s).
-Definition set_strong (s : shared) (n : nat) : shared :=
-  mkShared (cell s) n (next_fd s) (log s).
-Definition set_next (s : shared) (v : Z) : shared :=
-  mkShared (cell s) (strong s) v (log s).
+  mkShared (objs s) (next_fd s) (e :: log s).
 
 (** the current operation returns [r] to the caller; the thread moves to its next operation *)
-Definition retire (t : nat) (th : thread) (r : res) (s : shared) : thread * shared :=
-  (mkThread (tl (prog th)) (S (done th)) Idle (live th) (nexth th),
-   emit (EvRet t (done th) r) s).
+Definition retire (t : nat) (th : thread) (o : nat) (r : res) (s : shared) : thread * shared :=
+  (mkThread (tl (prog th)) (S (done th)) Idle (live th) (dead th) (nexth th),
+   emit (EvRet t (done th) o r) s).
 
 (** A [UnixFd] value goes away: [Arc::drop] = one atomic decrement (the point "handle.drop" in
     the cfg-only [impl Drop for UnixFd]); if the count was 1 the destructor of [UnixFdInner]
     runs in this thread (its steps follow), otherwise the call returns [k]. *)
-Definition dec_strong (t : nat) (th : thread) (h : nat) (k : res) (s : shared) : thread * shared :=
+Definition dec_strong (t : nat) (th : thread) (h o : nat) (k : res) (s : shared) : thread * shared :=
   let th1 := set_live th (rm1 h (live th)) in
-  let s1 := set_strong s (pred (strong s)) in
-  if Nat.eqb (strong s) 1
-  then (set_pc th1 (DtorLoad k), emit (EvDecZero t) s1)
-  else retire t th1 k s1.
+  let ob := get_obj s o in
+  let s1 := set_obj s o (mkObj (cell ob) (pred (strong ob))) in
+  if Nat.eqb (strong ob) 1
+  then (set_pc th1 (DtorLoad o k), emit (EvDecZero t o) s1)
+  else retire t th1 o k s1.
 
 (** [UnixFdInner::get] / the first half of [UnixFdInner::take]:
     [let loaded = self.inner.load(SeqCst); if loaded == FD_INVALID { None } else { Some(loaded) }] *)
-Definition load_opt (s : shared) : option Z :=
-  if Z.eqb (cell s) FD_INVALID then None else Some (cell s).
+Definition load_opt (s : shared) (o : nat) : option Z :=
+  if Z.eqb (cell (get_obj s o)) FD_INVALID then None else Some (cell (get_obj s o)).
+
+(** does the operation consume a handle number for the handle it would create? *)
+Definition allocates (o : op) : bool :=
+  match o with Dup _ | Clone _ => true | _ => false end.
+Definition op_handle (o : op) : nat :=
+  match o with Take h | Get h | Dup h | DupFail h | Clone h | Drop h => h end.
+
+(** an operation on a handle that does not exist is skipped (one scheduling step) *)
+Definition skip_op (t : nat) (th : thread) (o : op) (s0 : shared) : thread * shared :=
+  let th1 := if allocates o then alloc_dead th else th in
+  retire t th1 0 (if has (op_handle o) (dead th) then RSkipped else RInvalid) s0.
 
 (** ** One atomic action of thread [t] *)
 Definition step_thread (t : nat) (th : thread) (s : shared) : thread * shared :=
@@ -137,72 +179,83 @@ Definition step_thread (t : nat) (th : thread) (s : shared) : thread * shared :=
   | Idle =>
     match prog th with
     | [] => (th, s)                                   (* finished *)
-    | o :: _ =>
-      let s0 := emit (EvStart t (done th)) s in
-      match o with
-      | Get h =>
-        (* UnixFd::get_raw_fd -> UnixFdInner::get: point "get.load"; self.inner.load(SeqCst) *)
-        if has h (live th) then retire t th (RGet (load_opt s)) s0
-        else retire t th RInvalid s0
-      | Take h =>
-        (* UnixFd::take_raw_fd -> UnixFdInner::take: point "take.load"; self.inner.load(SeqCst);
-           if loaded_fd == FD_INVALID { None } else { ...compare_exchange... } *)
-        if has h (live th) then
-          match load_opt s with
-          | None => (set_pc th (TakeDec h None), s0)
-          | Some v => (set_pc th (TakeCas h v), s0)
+    | op :: _ =>
+      match lookup (op_handle op) (live th) with
+      | None => skip_op t th op (emit (EvStart t (done th) 0) s)
+      | Some o =>
+        let s0 := emit (EvStart t (done th) o) s in
+        match op with
+        | Get h =>
+          (* UnixFd::get_raw_fd -> UnixFdInner::get: point "get.load"; self.inner.load(SeqCst) *)
+          retire t th o (RGet (load_opt s o)) s0
+        | Take h =>
+          (* UnixFd::take_raw_fd -> UnixFdInner::take: point "take.load"; self.inner.load(SeqCst);
+             if loaded_fd == FD_INVALID { None } else { ...compare_exchange... } *)
+          match load_opt s o with
+          | None => (set_pc th (TakeDec h o None), s0)
+          | Some v => (set_pc th (TakeCas h o v), s0)
           end
-        else retire t th RInvalid s0
-      | Dup h =>
-        (* UnixFd::dup -> UnixFdInner::dup: match self.get() { Some(fd) => fd, None => return Err(AlreadyTaken) }
-           (point "get.load"; load) *)
-        if has h (live th) then
-          match load_opt s with
-          | None => retire t th (RDup None) s0
-          | Some v => (set_pc th (DupSys v), s0)
+        | Dup h =>
+          (* UnixFd::dup -> UnixFdInner::dup: match self.get() { Some(fd) => fd, None => return Err(AlreadyTaken) }
+             (point "get.load"; load) *)
+          match load_opt s o with
+          | None => retire t (alloc_dead th) o (RDup None) s0
+          | Some v => (set_pc th (DupSys o v false), s0)
           end
-        else retire t th RInvalid s0
-      | Clone h =>
-        (* #[derive(Clone)] on UnixFd(Arc<UnixFdInner>): Arc::clone = one atomic increment
-           (the harness puts its own point in front of the call) *)
-        if has h (live th) then
-          retire t (mkThread (prog th) (done th) (pc th) (nexth th :: live th) (S (nexth th))) RClone
-                 (set_strong s0 (S (strong s0)))
-        else retire t th RInvalid s0
-      | Drop h =>
-        (* drop(handle): point "handle.drop"; Arc decrement *)
-        if has h (live th) then dec_strong t th h RDrop s0
-        else retire t th RInvalid s0
+        | DupFail h =>
+          match load_opt s o with
+          | None => retire t th o (RDup None) s0
+          | Some v => (set_pc th (DupSys o v true), s0)
+          end
+        | Clone h =>
+          (* #[derive(Clone)] on UnixFd(Arc<UnixFdInner>): Arc::clone = one atomic increment
+             (the harness puts its own point in front of the call) *)
+          let ob := get_obj s o in
+          retire t (alloc_live th o) o RClone (set_obj s0 o (mkObj (cell ob) (S (strong ob))))
+        | Drop h =>
+          (* drop(handle): point "handle.drop"; Arc decrement *)
+          dec_strong t th h o RDrop s0
+        end
       end
     end
-  | TakeCas h v =>
+  | TakeCas h o v =>
     (* UnixFdInner::take: point "take.cas"; self.inner.compare_exchange(loaded_fd, FD_INVALID, SeqCst, SeqCst);
        Ok(taken_fd) => Some(taken_fd), Err(_) => None *)
-    if Z.eqb (cell s) v
-    then (set_pc th (TakeDec h (Some v)), emit (EvTakeCas t v) (set_cell s FD_INVALID))
-    else (set_pc th (TakeDec h None), s)
-  | TakeDec h r =>
+    let ob := get_obj s o in
+    if Z.eqb (cell ob) v
+    then (set_pc th (TakeDec h o (Some v)), emit (EvTakeCas t o v) (set_obj s o (mkObj FD_INVALID (strong ob))))
+    else (set_pc th (TakeDec h o None), s)
+  | TakeDec h o r =>
     (* end of UnixFd::take_raw_fd(self): `self` is dropped: point "handle.drop"; Arc decrement *)
-    dec_strong t th h (RTake r) s
-  | DupSys v =>
-    (* UnixFdInner::dup: point "dup.syscall"; nix::unistd::dup(fd); Ok(new_fd) => Ok(Self{inner: AtomicI32::new(new_fd)})
-       (the simulated table never fails and hands out fresh numbers) *)
-    retire t th (RDup (Some (next_fd s)))
-           (emit (EvDupSys t v (next_fd s)) (set_next s (next_fd s + 1)%Z))
-  | DtorLoad k =>
+    dec_strong t th h o (RTake r) s
+  | DupSys o v false =>
+    (* UnixFdInner::dup: point "dup.syscall"; nix::unistd::dup(fd);
+       Ok(new_fd) => Ok(Self{inner: AtomicI32::new(new_fd)}), then UnixFd::dup wraps it in Arc::new:
+       a new object (cell = new_fd, strong = 1) whose only handle the caller gets.
+       The simulated table hands out fresh numbers. *)
+    let n := length (objs s) in
+    retire t (alloc_live th n) o (RDup (Some (next_fd s)))
+           (emit (EvDupSys t o v (next_fd s))
+                 (mkShared (objs s ++ [mkObj (next_fd s) 1]) (next_fd s + 1)%Z (log s)))
+  | DupSys o v true =>
+    (* UnixFdInner::dup: point "dup.syscall"; nix::unistd::dup(fd) = Err(e) => Err(DupError::Io(..)):
+       nothing else happens *)
+    retire t th o RDupErr (emit (EvDupFail t o v) s)
+  | DtorLoad o k =>
     (* Drop for UnixFdInner: if let Some(fd) = self.take() {...}: point "take.load"; load *)
-    match load_opt s with
-    | None => retire t th k s
-    | Some v => (set_pc th (DtorCas v k), s)
+    match load_opt s o with
+    | None => retire t th o k s
+    | Some v => (set_pc th (DtorCas o v k), s)
     end
-  | DtorCas v k =>
+  | DtorCas o v k =>
     (* Drop for UnixFdInner -> self.take(): point "take.cas"; compare_exchange *)
-    if Z.eqb (cell s) v
-    then (set_pc th (DtorClose v k), emit (EvDtorCas t v) (set_cell s FD_INVALID))
-    else retire t th k s
-  | DtorClose v k =>
+    let ob := get_obj s o in
+    if Z.eqb (cell ob) v
+    then (set_pc th (DtorClose o v k), emit (EvDtorCas t o v) (set_obj s o (mkObj FD_INVALID (strong ob))))
+    else retire t th o k s
+  | DtorClose o v k =>
     (* Drop for UnixFdInner: point "drop.close"; nix::unistd::close(fd).ok() *)
-    retire t th k (emit (EvClose t v) s)
+    retire t th o k (emit (EvClose t o v) s)
   end.
 
 (** Schedule entry [t]: thread [t] performs its next atomic action. An entry naming no thread,
@@ -222,17 +275,23 @@ Fixpoint exec (sched : list nat) (c : cfg) : cfg :=
 (** Initial configuration: [UnixFd::new(fd0)] cloned once per thread (strong count = number of
     threads), every thread owns its clone as handle 0; descriptors handed out by the simulated
     [dup] start at fd0 + 1. *)
-Definition init_thread (p : list op) : thread := mkThread p 0 Idle [0] 1.
+Definition init_thread (p : list op) : thread := mkThread p 0 Idle [(0, 0)] [] 1.
 Definition init (fd0 : Z) (progs : list (list op)) : cfg :=
-  mkCfg (mkShared fd0 (length progs) (fd0 + 1)%Z []) (map init_thread progs).
+  mkCfg (mkShared [mkObj fd0 (length progs)] (fd0 + 1)%Z []) (map init_thread progs).
 
-(** ** Ownership: what Rust's borrow checker guarantees about a thread's program *)
+(** the descriptor object o was created over: the simulated table numbers dup results consecutively *)
+Definition obj_fd (fd0 : Z) (o : nat) : Z := (fd0 + Z.of_nat o)%Z.
+
+(** ** Ownership: what Rust's borrow checker guarantees about a thread's program
+    ([lv] = handle numbers the thread may use: created and not yet consumed) *)
+Fixpoint rmh (h : nat) (l : list nat) : list nat :=
+  match l with [] => [] | x :: r => if Nat.eqb h x then r else x :: rmh h r end.
 Fixpoint own_ok (p : list op) (lv : list nat) (nx : nat) : bool :=
   match p with
   | [] => true
-  | Take h :: r | Drop h :: r => has h lv && own_ok r (rm1 h lv) nx
-  | Get h :: r | Dup h :: r => has h lv && own_ok r lv nx
-  | Clone h :: r => has h lv && own_ok r (nx :: lv) (S nx)
+  | Take h :: r | Drop h :: r => has h lv && own_ok r (rmh h lv) nx
+  | Get h :: r | DupFail h :: r => has h lv && own_ok r lv nx
+  | Clone h :: r | Dup h :: r => has h lv && own_ok r (nx :: lv) (S nx)
   end.
 Definition ownership_respected (progs : list (list op)) : bool :=
   forallb (fun p => own_ok p [0] 1) progs.
@@ -255,12 +314,12 @@ Definition run (sched : list nat) (c : cfg) : cfg :=
 Definition trace (c : cfg) : list event := rev (log (sh c)).   (* oldest first *)
 
 Definition is_syscall (e : event) : bool :=
-  match e with EvDupSys _ _ _ | EvClose _ _ => true | _ => false end.
+  match e with EvDupSys _ _ _ _ | EvDupFail _ _ _ | EvClose _ _ _ => true | _ => false end.
 (** the global ordered sequence of dup/close calls *)
 Definition syscalls (c : cfg) : list event := filter is_syscall (trace c).
 (** return values of thread t, in program order *)
 Definition results_of (t : nat) (c : cfg) : list res :=
-  flat_map (fun e => match e with EvRet t' _ r => if Nat.eqb t t' then [r] else [] | _ => [] end) (trace c).
+  flat_map (fun e => match e with EvRet t' _ _ r => if Nat.eqb t t' then [r] else [] | _ => [] end) (trace c).
 Definition finished (th : thread) : bool :=
   match pc th, prog th with Idle, [] => true | _, _ => false end.
 Definition all_finished (c : cfg) : bool := forallb finished (threads c).
@@ -270,50 +329,78 @@ Fixpoint remove_z (x : Z) (l : list Z) : list Z :=
   match l with [] => [] | y :: r => if Z.eqb x y then r else y :: remove_z x r end.
 Definition open_fds (fd0 : Z) (c : cfg) : list Z :=
   fold_left (fun acc e => match e with
-                          | EvDupSys _ _ n => acc ++ [n]
-                          | EvClose _ fd => remove_z fd acc
+                          | EvDupSys _ _ _ n => acc ++ [n]
+                          | EvClose _ _ fd => remove_z fd acc
                           | _ => acc
                           end) (trace c) [fd0].
 
 (** The scheduling point a thread is blocked at = the [verif_hooks::point] name in unixfd.rs in
-    front of the atomic action it performs next ("clone.inc" is supplied by the harness: a
-    derived Clone cannot carry a point). *)
-Inductive point := PGetLoad | PTakeLoad | PTakeCas | PHandleDrop | PDupSys | PCloneInc | PDropClose.
+    front of the atomic action it performs next ("clone.inc" and "skip" are supplied by the
+    harness: a derived Clone cannot carry a point, a skipped operation calls nothing). *)
+Inductive point := PGetLoad | PTakeLoad | PTakeCas | PHandleDrop | PDupSys | PCloneInc | PDropClose | PSkip.
 Definition next_point (th : thread) : option point :=
   match pc th with
   | Idle => match prog th with
             | [] => None
-            | Get _ :: _ | Dup _ :: _ => Some PGetLoad      (* UnixFdInner::get: "get.load" *)
-            | Take _ :: _ => Some PTakeLoad                 (* UnixFdInner::take: "take.load" *)
-            | Clone _ :: _ => Some PCloneInc
-            | Drop _ :: _ => Some PHandleDrop               (* Drop for UnixFd (cfg only): "handle.drop" *)
+            | op :: _ =>
+              match lookup (op_handle op) (live th) with
+              | None => Some PSkip
+              | Some _ =>
+                match op with
+                | Get _ | Dup _ | DupFail _ => Some PGetLoad   (* UnixFdInner::get: "get.load" *)
+                | Take _ => Some PTakeLoad                     (* UnixFdInner::take: "take.load" *)
+                | Clone _ => Some PCloneInc
+                | Drop _ => Some PHandleDrop                   (* Drop for UnixFd (cfg only): "handle.drop" *)
+                end
+              end
             end
-  | TakeCas _ _ => Some PTakeCas                            (* "take.cas" *)
-  | TakeDec _ _ => Some PHandleDrop
-  | DupSys _ => Some PDupSys                                (* "dup.syscall" *)
-  | DtorLoad _ => Some PTakeLoad
-  | DtorCas _ _ => Some PTakeCas
-  | DtorClose _ _ => Some PDropClose                        (* "drop.close" *)
+  | TakeCas _ _ _ => Some PTakeCas                          (* "take.cas" *)
+  | TakeDec _ _ _ => Some PHandleDrop
+  | DupSys _ _ _ => Some PDupSys                            (* "dup.syscall" *)
+  | DtorLoad _ _ => Some PTakeLoad
+  | DtorCas _ _ _ => Some PTakeCas
+  | DtorClose _ _ _ => Some PDropClose                      (* "drop.close" *)
   end.
-(** (thread, operation index, point) of every effective schedule entry, in order *)
-Fixpoint exec_points (sched : list nat) (c : cfg) : list (nat * nat * point) :=
+
+(** one entry of the merged observation sequence: a point passed, or a system call made *)
+Inductive obs :=
+| OPoint (t i : nat) (p : point)
+| OSys (e : event).
+
+(** the system call thread t makes in its next step, if that step is one *)
+Definition step_syscall (t : nat) (th : thread) (s : shared) : option event :=
+  match pc th with
+  | DupSys o v false => Some (EvDupSys t o v (next_fd s))
+  | DupSys o v true => Some (EvDupFail t o v)
+  | DtorClose o v _ => Some (EvClose t o v)
+  | _ => None
+  end.
+
+(** what happened at every effective schedule entry, in order: the point the thread was released
+    from, followed by the system call it made in that step, if any *)
+Fixpoint exec_obs (sched : list nat) (c : cfg) : list obs :=
   match sched with
   | [] => []
   | t :: r =>
     match nth_error (threads c) t with
-    | Some th => match next_point th with Some p => [(t, done th, p)] | None => [] end
+    | Some th =>
+      match next_point th with
+      | Some p => OPoint t (done th) p ::
+                  match step_syscall t th (sh c) with Some e => [OSys e] | None => [] end
+      | None => []
+      end
     | None => []
-    end ++ exec_points r (step t c)
+    end ++ exec_obs r (step t c)
   end.
 
 (** what the harness prints for one input line: per-thread return values, the ordered dup/close
-    calls, the open descriptors at the end, the points passed *)
+    calls, the open descriptors at the end, the merged sequence of points and system calls *)
 Definition observe (fd0 : Z) (progs : list (list op)) (sched : list nat)
-  : list (list res) * list event * list Z * list (nat * nat * point) :=
+  : list (list res) * list event * list Z * list obs :=
   let c0 := init fd0 progs in
   let c := run sched c0 in
   (map (fun t => results_of t c) (seq 0 (length progs)), syscalls c, open_fds fd0 c,
-   exec_points (sched ++ completion (exec sched c0)) c0).
+   exec_obs (sched ++ completion (exec sched c0)) c0).
 
 (** the same as a flat list of numbers (used to compare the extracted OCaml model with
     [vm_compute] inside Coq) *)
@@ -321,22 +408,29 @@ Definition enc_opt (o : option Z) : Z := match o with Some v => v | None => (-1)
 Definition enc_res (r : res) : list Z :=
   match r with
   | RTake o => [1; enc_opt o] | RGet o => [2; enc_opt o] | RDup o => [3; enc_opt o]
-  | RClone => [4; 0] | RDrop => [5; 0] | RInvalid => [6; 0]
+  | RClone => [4; 0] | RDrop => [5; 0] | RInvalid => [6; 0] | RDupErr => [7; 0] | RSkipped => [8; 0]
   end%Z.
 Definition enc_ev (e : event) : list Z :=
   match e with
-  | EvDupSys t s n => [7%Z; Z.of_nat t; s; n]
-  | EvClose t fd => [8%Z; Z.of_nat t; fd]
+  | EvDupSys t _ s n => [7%Z; Z.of_nat t; s; n]
+  | EvClose t _ fd => [8%Z; Z.of_nat t; fd]
+  | EvDupFail t _ s => [9%Z; Z.of_nat t; s]
   | _ => []
   end.
 Definition enc_point (p : point) : Z :=
   match p with
-  | PGetLoad => 1 | PTakeLoad => 2 | PTakeCas => 3 | PHandleDrop => 4 | PDupSys => 5 | PCloneInc => 6 | PDropClose => 7
+  | PGetLoad => 1 | PTakeLoad => 2 | PTakeCas => 3 | PHandleDrop => 4 | PDupSys => 5 | PCloneInc => 6
+  | PDropClose => 7 | PSkip => 8
   end%Z.
-Definition encode (o : list (list res) * list event * list Z * list (nat * nat * point)) : list Z :=
+Definition enc_obs (x : obs) : list Z :=
+  match x with
+  | OPoint t i p => [Z.of_nat t; Z.of_nat i; enc_point p]
+  | OSys e => (-5)%Z :: enc_ev e
+  end.
+Definition encode (o : list (list res) * list event * list Z * list obs) : list Z :=
   let '(rs, sys, opn, pts) := o in
   flat_map (fun l => flat_map enc_res l ++ [(-9)%Z]) rs ++ [(-8)%Z] ++ flat_map enc_ev sys ++ [(-7)%Z] ++ opn
-  ++ [(-6)%Z] ++ flat_map (fun x => let '(t, i, p) := x in [Z.of_nat t; Z.of_nat i; enc_point p]) pts.
+  ++ [(-6)%Z] ++ flat_map enc_obs pts.
 
 (** ** Examples: the model computes *)
 Example ex3_progs : list (list op) :=
@@ -354,21 +448,34 @@ Example ex3_run :
   /\ results_of 2 c = [RClone; RDup None; RDrop; RDrop]
   /\ syscalls c = []
   /\ all_finished c = true
-  /\ strong (sh c) = 0.
+  /\ map strong (objs (sh c)) = [0].
 Proof. vm_compute. repeat split; reflexivity. Qed.
 
-(* nobody takes: the last drop (thread 1 here) closes, after a dup by thread 0 *)
+(* nobody takes: the last drop (thread 1 here) closes, after a dup by thread 0; the handle the
+   dup returned (handle 1 of thread 0, object 1 over descriptor 8) is dropped by the program: the
+   library closes 8 then, and only then *)
 Example ex2_run :
-  let c := run [0; 0; 1] (init 7 [ [Dup 0; Drop 0]; [Get 0; Drop 0] ]) in
-  results_of 0 c = [RDup (Some 8%Z); RDrop]
+  let c := run [0; 0; 1] (init 7 [ [Dup 0; Drop 0; Get 1; Drop 1]; [Get 0; Drop 0] ]) in
+  results_of 0 c = [RDup (Some 8%Z); RDrop; RGet (Some 8%Z); RDrop]
   /\ results_of 1 c = [RGet (Some 7%Z); RDrop]
-  /\ syscalls c = [EvDupSys 0 7 8; EvClose 1 7]
+  /\ syscalls c = [EvDupSys 0 0 7 8; EvClose 0 1 8; EvClose 1 0 7]
   /\ all_finished c = true.
+Proof. vm_compute. repeat split; reflexivity. Qed.
+
+(* a failing dup changes nothing: the descriptor is closed by the last drop only; the
+   operation on the handle a failed/gone dup would have created is skipped *)
+Example ex_dupfail_run :
+  let c := run [1; 1; 0; 0; 0] (init 7 [ [Take 0; Dup 0]; [DupFail 0; Dup 0; Get 1; Drop 0] ]) in
+  results_of 0 c = [RTake (Some 7%Z); RInvalid]
+  /\ results_of 1 c = [RDupErr; RDup None; RSkipped; RDrop]
+  /\ syscalls c = [EvDupFail 1 0 7]
+  /\ ownership_respected [ [DupFail 0; Dup 0; Get 1; Drop 0] ] = true.
 Proof. vm_compute. repeat split; reflexivity. Qed.
 
 Example ex2_observe :
   observe 7 [ [Dup 0; Drop 0]; [Get 0; Drop 0] ] [0; 0; 1]
-  = ([ [RDup (Some 8%Z); RDrop]; [RGet (Some 7%Z); RDrop] ], [EvDupSys 0 7 8; EvClose 1 7], [8%Z],
-     [ (0, 0, PGetLoad); (0, 0, PDupSys); (1, 0, PGetLoad); (0, 1, PHandleDrop); (1, 1, PHandleDrop);
-       (1, 1, PTakeLoad); (1, 1, PTakeCas); (1, 1, PDropClose) ]).
+  = ([ [RDup (Some 8%Z); RDrop]; [RGet (Some 7%Z); RDrop] ], [EvDupSys 0 0 7 8; EvClose 1 0 7], [8%Z],
+     [ OPoint 0 0 PGetLoad; OPoint 0 0 PDupSys; OSys (EvDupSys 0 0 7 8); OPoint 1 0 PGetLoad;
+       OPoint 0 1 PHandleDrop; OPoint 1 1 PHandleDrop;
+       OPoint 1 1 PTakeLoad; OPoint 1 1 PTakeCas; OPoint 1 1 PDropClose; OSys (EvClose 1 0 7) ]).
 Proof. vm_compute. reflexivity. Qed.
